@@ -3,6 +3,7 @@
 package rhp
 
 import (
+	"strings"
 	"context"
 	"errors"
 	"fmt"
@@ -32,14 +33,59 @@ import (
 
 // ---------------------------------------------------------------- stubs
 
-type c12Chain struct{ height, require uint64 }
+// c12Chain: `late` blocks are connected while the RPC is in flight — after the handler has had
+// its first look at the chain (it takes the consensus state when the RPC starts) and before the
+// renter's request has arrived: the blocks arrive (c12GateConn) at the first read from the
+// connection that follows a chain query.  Queries before that see height-late, later ones height.
+type c12Chain struct {
+	height, require uint64
+	late            uint64
+	asked, flipped  bool
+	writesAtFlip    int // host messages written before the blocks arrived
+}
 
-func (c *c12Chain) Tip() types.ChainIndex { return types.ChainIndex{Height: c.height} }
+func (c *c12Chain) now() uint64 {
+	h := c.height
+	if !c.flipped {
+		h -= c.late
+	}
+	c.asked = true
+	return h
+}
+
+// validatedAt is the height that was current while the handler validated the request: the new
+// one if the blocks arrived before the handler wrote anything (validation comes after the
+// request is read and before the first answer), else the old one.
+func (c *c12Chain) validatedAt() uint64 {
+	if c.flipped && c.writesAtFlip == 0 {
+		return c.height
+	}
+	return c.height - c.late
+}
+
+type c12GateConn struct {
+	net.Conn
+	chain  *c12Chain
+	writes int
+}
+
+func (g *c12GateConn) Read(p []byte) (int, error) {
+	if c := g.chain; c != nil && c.asked && !c.flipped {
+		c.flipped, c.writesAtFlip = true, g.writes
+	}
+	return g.Conn.Read(p)
+}
+func (g *c12GateConn) Write(p []byte) (int, error) {
+	g.writes++
+	return g.Conn.Write(p)
+}
+
+func (c *c12Chain) Tip() types.ChainIndex { return types.ChainIndex{Height: c.now()} }
 func (c *c12Chain) TipState() consensus.State {
 	n := &consensus.Network{}
 	n.HardforkV2.RequireHeight = c.require
 	n.HardforkV2.AllowHeight = c.require
-	return consensus.State{Network: n, Index: types.ChainIndex{Height: c.height}}
+	return consensus.State{Network: n, Index: types.ChainIndex{Height: c.now()}}
 }
 func (c *c12Chain) UnconfirmedParents(types.Transaction) []types.Transaction { return nil }
 func (c *c12Chain) AddPoolTransactions([]types.Transaction) (bool, error)   { return false, nil }
@@ -171,9 +217,13 @@ func c12Session(t *testing.T, sh *SessionHandler, sess *session, renter func(rt 
 	}()
 	func() {
 		defer hostConn.Close()
-		ht, err := rhp2.NewHostTransport(hostConn, c12HostKey)
+		gate := &c12GateConn{Conn: hostConn}
+		ht, err := rhp2.NewHostTransport(gate, c12HostKey)
 		if err != nil {
 			t.Fatal("host transport:", err)
+		}
+		if ch, ok := sh.chain.(*c12Chain); ok { // handshake done: the RPC starts here
+			gate.chain, gate.writes = ch, 0
 		}
 		sess.t = ht
 		defer func() {
@@ -315,6 +365,9 @@ func c12DirectedV2() []c12Directed {
 		{"hform", "accept: honest formation through rpcFormContract", func(c *c12Cand) {}},
 		{"hform", "reject: window start = v2 require height", func(c *c12Cand) { c.cfg.require = c.fc.ws }},
 		{"hform", "accept: window start = v2 require height - 1", func(c *c12Cand) { c.cfg.require = c.fc.ws + 1 }},
+		{"hform", "reject: window start = height + window size - 1, a block arrives during the RPC", func(c *c12Cand) { c.fc.ws = 1143 }},
+		{"hform", "accept: window start = height + window size, a block arrives during the RPC", func(c *c12Cand) { c.fc.ws = 1144 }},
+		{"hrenew", "reject: renewal window start = height + window size - 1, a block arrives during the RPC", func(c *c12Cand) { c.fc.ws = 1143 }},
 		{"hrenew", "accept: honest renewal through rpcRenewAndClearContract", func(c *c12Cand) {}},
 		{"hrenew", "accept: renewal without extension", func(c *c12Cand) {
 			c.fc.we = 1444
@@ -439,6 +492,16 @@ func TestVerifC12V2(t *testing.T) {
 			}
 		case "hform", "hrenew":
 			chain := &c12Chain{height: c.cfg.height, require: c.cfg.require}
+			// a block or two arriving while the RPC is in flight: the contract is validated
+			// against the height at validation time (c.cfg.height), not the one the RPC started at
+			// (not across the v2 require height: rpcLoop's own guard ran before the blocks arrived)
+			if late := []uint64{0, 0, 1, 2}[rng.Intn(4)]; id >= len(directed) && late <= c.cfg.height &&
+				(c.cfg.height-late >= c.cfg.require) == (c.cfg.height >= c.cfg.require) {
+				chain.late = late
+			} else if id < len(directed) && strings.Contains(c.desc, "block arrives during the RPC") {
+				chain.late = 1
+			}
+			em.Count(fmt.Sprintf("late-blocks:%d", chain.late))
 			wallet := &c12Wallet{addr: walletAddr}
 			cm := &c12Contracts{}
 			sh := &SessionHandler{privateKey: c12HostKey, chain: chain, syncer: c12Syncer{}, wallet: wallet, contracts: cm,
@@ -494,6 +557,13 @@ func TestVerifC12V2(t *testing.T) {
 					rt.ReadResponse(&hostSigs, 65536)
 				})
 				inp = fmt.Sprintf("(HRenew2 %s %s %s 1 %d %d %s)", exTerm(), c12CursTerm(c.vals), ids.fcTerm(fc, 0), c.cfg.height, c.cfg.require, c.cfg.settings2Term())
+			}
+			// the height the request was validated at (see c12Chain); everything below — the
+			// recorded model input included — speaks about that height
+			if eff := chain.validatedAt(); eff != c.cfg.height {
+				em.Count("late-blocks:arrived-after-validation")
+				c.cfg.height = eff
+				inp = strings.Replace(inp, fmt.Sprintf(" 1 %d %d ", chain.height, c.cfg.require), fmt.Sprintf(" 1 %d %d ", eff, c.cfg.require), 1)
 			}
 			switch {
 			case pmsg != "":
